@@ -78,19 +78,27 @@ def step_of(what):
     return int(m.group(1)) if m else None
 
 
-def judge_histories(ctx, names, nv, hs, cov):
-    """P -> A -> S cascade over recorded concurrent histories; reports deviations."""
-    acc_p = R.linearize(ctx, names, nv, hs, "P", "concurrent histories vs reference (%d namespaces)" % len(names))
-    rej = [h for h in hs if h[0]["t"] not in acc_p]
+SYNTH = 1000000   # ids of the synthetic self-test traces / histories
+
+
+def judge_histories(ctx, names, nv, hs, cov, synthetic=()):
+    """P -> A -> S cascade over recorded concurrent histories; reports deviations.  `synthetic` histories (binding
+    self-test) ride along in the same TLC runs and are returned separately, never reported."""
+    allh = list(hs) + list(synthetic)
+    acc_p = R.linearize(ctx, names, nv, allh, "P", "concurrent histories vs reference (%d namespaces)" % len(names))
+    rej = [h for h in allh if h[0]["t"] not in acc_p]
     acc_a = R.linearize(ctx, names, nv, rej, "A", "rejected histories vs atomic double-buffer operations")
     rej2 = [h for h in rej if h[0]["t"] not in acc_a]
     acc_s = R.linearize(ctx, names, nv, rej2, "S", "rejected histories vs interleaved steps")
+    real = lambda ids: set(t for t in ids if t < SYNTH)
     cov["concurrent_histories"] = cov.get("concurrent_histories", 0) + len(hs)
-    cov["histories_linearizable_to_reference"] = cov.get("histories_linearizable_to_reference", 0) + len(acc_p)
-    cov["histories_explained_by_atomic_operations"] = cov.get("histories_explained_by_atomic_operations", 0) + len(acc_a)
-    cov["histories_explained_only_by_interleaved_steps"] = cov.get("histories_explained_only_by_interleaved_steps", 0) + len(acc_s)
+    cov["histories_linearizable_to_reference"] = cov.get("histories_linearizable_to_reference", 0) + len(real(acc_p))
+    cov["histories_explained_by_atomic_operations"] = cov.get("histories_explained_by_atomic_operations", 0) + len(real(acc_a))
+    cov["histories_explained_only_by_interleaved_steps"] = cov.get("histories_explained_only_by_interleaved_steps", 0) + len(real(acc_s))
     for h in rej:
         t = h[0]["t"]
+        if t >= SYNTH:
+            continue
         sig = SIG_A if t in acc_a else (SIG_S if t in acc_s else SIG_U)
         brief = "; ".join("%s%d:%s(%s%s)%s" % (e["ev"][0], e["a"], e["op"], e["n"], ",%d" % e["v"] if e["v"] else "",
                                                "=" + e["out"] if e["out"] else "") for e in h if e["ev"] != "final")
@@ -104,13 +112,15 @@ def run(ctx):
     thorough = ctx.thorough
     rng = random.Random(ctx.seed)
     nv = 2
-    names2, names3 = ["n1", "n2"], ["n1", "n2", "n3"]
-    table = R.formula_creds(names3, nv)
+    # namespace names are opaque, case-sensitive keys: two differ only in letter case, one is a prefix of another
+    names2, names3 = ["n1", "N1"], ["n1", "N1", "n10"]
+    table = R.formula_creds(names3 + ["n2", "n3"], nv)     # n2, n3: names used by the stored finding cases
     cov = ctx.cov
     ctx.assumptions += [
         "operations are whole calls of Manager.ReloadNamespacePrepare / ReloadNamespaceCommit / DeleteNamespace; a panic inside "
         "a call is a failed call whose side effects are still compared",
-        "a commit may fail at any time (the property speaks of successful commits); a failed call must change nothing visible",
+        "a commit may fail at any time (the property speaks of successful commits); a failed call (also a prepare whose "
+        "configuration the proxy rejects) must change nothing visible and does not count as 'last prepared'",
         "namespaces carry no backend addresses; the delayed Close of replaced namespaces is cut short after it cancelled the "
         "namespace context",
     ]
@@ -125,10 +135,10 @@ def run(ctx):
         return
 
     # ------------------------------------------------------------------ 1. model checking
-    inits2, inits3 = [[0, 0], [1, 0]], [[0, 0, 0], [1, 0, 0]]
+    inits2, inits3 = [[0, 0], [1, 0]], [[0, 0, 0], [1, 1, 0]]
     mc_names, mc_inits = (names3, inits3) if thorough else (names2, inits2)
     r = R.mc(ctx, mc_names, nv, table, mc_inits, False, False, INVS, PROPS,
-             "double buffer as in manager.go vs reference, all operation sequences", allow_violation=True)
+             "double buffer as in manager.go vs reference, all operation sequences", allow_violation=True, with_bad=True)
     candidate = None
     if r.violated:
         init, ops = parse_candidate(r.trace_text)
@@ -137,61 +147,69 @@ def run(ctx):
     else:
         ctx.notes.append("the I-level double buffer refines the reference in TLC: no candidate")
     r2 = R.mc(ctx, mc_names, nv, table, mc_inits, True, False, INVS, PROPS,
-              "well-formed reloads only (every prepare followed by its commit): the double buffer must refine the reference")
-    r3 = R.mc(ctx, mc_names, nv, table, mc_inits, False, True, INVS, PROPS,
-              "proposed repair (commit only for the pending namespace, delete cancels the pending prepare) vs reference")
-    for rr in (r2, r3):
+              "well-formed reloads only (every prepare followed by its commit): the double buffer must refine the reference",
+              with_bad=True)
+    cov["model_checking"] = {"as_in_code": {"violated": r.violated, "distinct": r.distinct},
+                             "paired_reloads_only": {"violated": None, "distinct": r2.distinct}}
+    checked = [r2]
+    if thorough:
+        r3 = R.mc(ctx, mc_names, nv, table, mc_inits, False, True, INVS, PROPS,
+                  "proposed repair C31-1 (commit only for the pending namespace, delete cancels the pending prepare) vs reference",
+                  with_bad=True)
+        cov["model_checking"]["proposed_fix"] = {"violated": None, "distinct": r3.distinct}
+        checked.append(r3)
+    for rr in checked:
         if rr.zero_actions:
             ctx.notes.append("vacuous actions: %s" % rr.zero_actions)
-    cov["model_checking"] = {
-        "as_in_code": {"violated": r.violated, "distinct": r.distinct},
-        "paired_reloads_only": {"violated": None, "distinct": r2.distinct},
-        "proposed_fix": {"violated": None, "distinct": r3.distinct},
-    }
 
     # ------------------------------------------------------------------ 2. G: behaviours replayed on the real Manager
-    inits3b = [[0, 0, 0], [1, 1, 0]]
-    plans = [dict(names=names2, inits=inits2, len=4)]
+    plans = [dict(names=names2, inits=[[1, 0]], len=4)]    # behaviours that first delete n1 cover the empty start
     sims = []
     if thorough:
-        plans = [dict(names=names2, inits=inits2, len=5), dict(names=names3, inits=inits3b, len=4)]
-        sims = [dict(names=names3, inits=inits3b, len=8, num=1500)]
-    nontriv = [0]
+        plans = [dict(names=names2, inits=inits2, len=5), dict(names=names3, inits=inits3, len=4)]
+        sims = [dict(names=names3, inits=inits3, len=8, num=1500)]
+    nontriv = 0
     total_cases = 0
     trace_lines = []
-    known_cases = [k["case"] for k in vlib.load_known("C31") if isinstance(k.get("case"), dict) and k["case"].get("kind") == "behaviour"]
+    known = [k for k in vlib.load_known("C31") if isinstance(k.get("case"), dict) and k["case"].get("kind") == "behaviour"]
+    selftest = {}
+    bad = {"sc": 1, "ns": names2, "init": [0, 0], "steps": [
+        ["prepare", "n1", 1, "ok", True, 0, [0, 0], [0, 0], []],
+        ["commit", "n1", 0, "ok", True, 2, [2, 0], [2, 0], []]]}          # TLC says version 1 becomes active
     first = True
     for p in plans + sims:
         sim = "num" in p
         label = ("simulate length %d" if sim else "all behaviours of length %d") % p["len"] + ", %d namespaces" % len(p["names"])
         kw = dict(mode="sim", sim="num=%d" % p["num"], depth=p["len"] + 1, seed=rng.randrange(1, 2 ** 31)) if sim else {}
-        path, n, _ = R.generate(ctx, p["names"], nv, table, p["inits"], False, p["len"], False, label, **kw)
-        extra = []
+        path, n, _ = R.generate(ctx, p["names"], nv, table, p["inits"], False, p["len"], False, label, with_bad=True, **kw)
         cand_at = None
         with open(path) as f:
             for line in f:
                 c = json.loads(line)
                 if nontrivial(c):
-                    nontriv[0] += 1
+                    nontriv += 1
                 if first and candidate and cand_at is None and candidate["ops"]:
                     k = len(candidate["ops"])
                     want_init = [candidate["init"].get(x, 0) for x in c["ns"]]
                     if c["init"] == want_init and len(c["steps"]) >= k and \
                             all(tuple(c["steps"][j][:3]) == candidate["ops"][j][:3] for j in range(k)):
-                        cc = dict(c)
-                        cc["steps"] = c["steps"][:k]
-                        cand_at = cc
+                        cand_at = dict(c, steps=c["steps"][:k])
+        extra, roles = [], []
         if first:
             ctx.sample({"behaviour": json.loads(open(path).readline())})
-        if first and cand_at is not None:
-            extra.append(cand_at)
-        if first:
-            extra += [k["case"] for k in known_cases]
+            if cand_at is not None:
+                extra.append(cand_at)
+                roles.append(("candidate", None))
+            for k in known:
+                extra.append(k["case"]["case"])
+                roles.append(("stored", k))
+            extra.append(bad)
+            roles.append(("selftest", None))
         with open(path, "a") as f:
             for c in extra:
                 f.write(json.dumps(c, separators=(",", ":")) + "\n")
         tp = ctx.path("seqtrace-%d.ndjson" % len(cov["go_runs"]))
-        every = max(1, n // (2500 if thorough else 1000))
+        every = max(1, n // (2500 if thorough else 800))
         cp = ctx.write_ndjson("creds.json", [table])
         res, summ, _ = ctx.harness(R.PKG, R.HARNESS, R.RUN_REPLAY, path, env={
             "VERIF_RELOAD_CREDS": cp, "VERIF_RELOAD_PROP": "C31", "VERIF_RELOAD_HANDSHAKE_EVERY": 25,
@@ -207,93 +225,105 @@ def run(ctx):
         if summ["drift"]:
             ctx.notes.append("MODEL-DRIFT: the code left the I-level prediction %d times, e.g. %s" % (summ["drift"], summ["drift_example"]))
             cov["model_drift"] = cov.get("model_drift", 0) + summ["drift"]
-        kept = [x for x in res if "kept" in (x.get("tags") or [])]
+        if summ.get("unexamined_after_drift"):
+            ctx.notes.append("%d steps were not examined because a prepare had another outcome than modelled" % summ["unexamined_after_drift"])
+        kept = sorted([x for x in res if "kept" in (x.get("tags") or [])], key=lambda x: x["case"])
         plain = [x for x in res if "kept" not in (x.get("tags") or [])]
+        if len(kept) != len(extra):
+            raise vlib.Inconclusive("harness reported %d of %d appended behaviours" % (len(kept), len(extra)))
+        counts = dict(summ["sig_count"])
+        reportable = list(plain)
+        still = 0
+        for x, (role, k) in zip(kept, roles):
+            if role == "selftest":
+                selftest["corrupted_expectation_detected"] = bool(x.get("devs"))
+                for d in x.get("devs", []):
+                    counts[d["sig"]] -= 1
+                continue
+            if role == "stored":
+                still += 1 if x.get("devs") else 0
+            if role == "candidate":
+                confirmed = bool(x.get("devs"))
+                cov["ilevel_counterexample"] = {"invariant": candidate["violated"], "init": candidate["init"],
+                                                "operations": ["%s(%s%s)" % (o[0], o[1], ",%d" % o[2] if o[2] else "") for o in candidate["ops"]],
+                                                "confirmed_on_real_code": confirmed}
+                if not confirmed:
+                    ctx.notes.append("MODEL-DRIFT: TLC's I-level counterexample %s was replayed and the real code does NOT show it "
+                                     "(the I-level of spec/Reload.tla no longer describes manager.go)" % (candidate["ops"],))
+            reportable.append(x)
         # minimal stored case: cut the behaviour after the deviating step
-        for x in plain + kept:
+        for x in reportable:
             st = min([s for s in (step_of(d["what"]) for d in x.get("devs", [])) if s is not None] or [None], default=None)
             if st is not None and isinstance(x.get("obs"), dict):
                 x["obs"] = dict(x["obs"], steps=x["obs"]["steps"][:st + 1])
-        R.report(ctx, plain + kept, summ, table, p["names"], nv, {})
-        if first and candidate:
-            confirmed = any(x.get("devs") for x in kept[:1]) if cand_at is not None else False
-            cov["ilevel_counterexample"] = {"invariant": candidate["violated"], "init": candidate["init"],
-                                            "operations": ["%s(%s%s)" % (o[0], o[1], ",%d" % o[2] if o[2] else "") for o in candidate["ops"]],
-                                            "confirmed_on_real_code": confirmed}
-            if not confirmed:
-                ctx.notes.append("MODEL-DRIFT: TLC's I-level counterexample %s was replayed and the real code does NOT show it "
-                                 "(the I-level of spec/Reload.tla no longer describes manager.go)" % (candidate["ops"],))
-        if first and known_cases:
-            hit = sum(1 for x in kept[(1 if cand_at is not None else 0):] if x.get("devs"))
-            cov["stored_finding_cases"] = {"replayed": len(known_cases), "still_deviating": hit}
-            if hit < len(known_cases):
-                ctx.notes.append("%d of %d stored finding cases no longer deviate (fixed?)" % (len(known_cases) - hit, len(known_cases)))
+        R.report(ctx, reportable, {"sig_count": {k: v for k, v in counts.items() if v > 0}}, table, p["names"], nv, {})
+        if first and known:
+            cov["stored_finding_cases"] = {"replayed": len(known), "still_deviating": still}
+            if still < len(known):
+                ctx.notes.append("%d of %d stored finding cases no longer deviate (fixed?)" % (len(known) - still, len(known)))
         lines = [e for e in ctx.read_ndjson(tp) if not e.get("summary") and e["ns"] == p["names"] and e["t"] < n]
         if not sim or len(trace_lines) < 40000:
             trace_lines.append((p["names"], lines))
         first = False
-    cov["distinct_nontrivial"] = nontriv[0]
-    cov["rule"] = ("behaviours = sequences of prepare(n,v)/commit(n)/delete(n) enumerated by TLC (all of a bounded length from an empty "
-                   "and from a loaded proxy, plus seeded simulation); non-trivial = a commit is attempted after an operation on a "
-                   "different namespace or a delete since the previous commit attempt")
+    cov["distinct_nontrivial"] = nontriv
+    cov["rule"] = ("behaviours = sequences of prepare(n,v) / prepare(n, rejected configuration) / commit(n) / delete(n) enumerated by TLC "
+                   "(all of a bounded length from an empty and from a loaded proxy, plus seeded simulation in the thorough tier); "
+                   "non-trivial = a commit is attempted after an operation on a different namespace or a delete since the previous "
+                   "commit attempt")
     cov["behaviours_replayed"] = total_cases
 
     # ------------------------------------------------------------------ 3. V: the recorded sequential executions judged by TLC
+    # (two synthetic traces ride along in the first run: binding self-test)
+    def line(t, ns, ev, n, v, out, obs):
+        return {"t": t, "ev": ev, "n": n, "v": v, "out": out, "obs": obs, "ns": ns, "init": [0] * len(ns), "sc": 1, "dev": False}
     nseq = 0
-    for nm, lines in trace_lines:
-        rej, ntr = R.validate_sequential(ctx, nm, nv, lines)
-        nseq += ntr
+    for i, (nm, lines) in enumerate(trace_lines):
+        z = [0] * (len(nm) - 1)
+        synth = [] if i else [
+            line(SYNTH, nm, "prepare", "n1", 1, "ok", [0] + z), line(SYNTH, nm, "commit", "n1", 0, "ok", [1] + z),          # correct
+            line(SYNTH + 1, nm, "prepare", "n1", 1, "ok", [0] + z), line(SYNTH + 1, nm, "commit", "n1", 0, "ok", [0] + z)]  # nothing activated
+        rej, ntr = R.validate_sequential(ctx, nm, nv, lines + synth)
+        if not i:
+            selftest["corrupted_sequential_trace_rejected"] = set(x for x in rej if x[0] >= SYNTH) == {(SYNTH + 1, 1)}
+        rej = set(x for x in rej if x[0] < SYNTH)
+        nseq += ntr - (2 if not i else 0)
         flagged = set()
         k = {}
         for e in lines:
-            i = k.get(e["t"], 0)
-            k[e["t"]] = i + 1
+            j = k.get(e["t"], 0)
+            k[e["t"]] = j + 1
             if e.get("dev"):
-                flagged.add((e["t"], i))
+                flagged.add((e["t"], j))
         if rej != flagged:
             d = sorted(rej ^ flagged)[:5]
             raise vlib.Inconclusive("G and V disagree on recorded steps (trace, step): %s - harness or trace specification is wrong" % d)
     cov["impl_traces_validated_by_tlc"] = nseq
 
     # ------------------------------------------------------------------ 4. V: concurrent administrators
-    ntrials = 1200 if thorough else 150
+    ntrials = 1200 if thorough else 120
     trials = R.concurrent_trials(rng, names3, nv, ntrials, 6)      # half of them touch two namespaces only
     hs, summ = R.run_concurrent(ctx, names3, nv, table, trials)
     cov["concurrent_operations"] = summ["operations"]
-    acc_p, acc_a, acc_s = judge_histories(ctx, names3, nv, hs, cov)
+
+    def hist(t, final):
+        def ev(kind, op, n, v, out):
+            return {"t": t, "ev": kind, "a": 1, "op": op, "n": n, "v": v, "out": out, "obs": [], "ns": names3, "init": [0, 0, 0], "nx": 0}
+        return [ev("start", "prepare", "n1", 1, ""), ev("end", "prepare", "n1", 1, "ok"), ev("start", "commit", "n1", 0, ""),
+                ev("end", "commit", "n1", 0, "ok"),
+                {"t": t, "ev": "final", "a": 0, "op": "", "n": "", "v": 0, "out": "", "obs": final, "ns": names3, "init": [0, 0, 0], "nx": 0}]
+    synth = [hist(SYNTH, [1, 0, 0]), hist(SYNTH + 1, [0, 0, 0])]     # the second one lost the committed configuration
+    acc_p, acc_a, acc_s = judge_histories(ctx, names3, nv, hs, cov, synthetic=synth)
     cov["traces_validated_against_impl"] += len(hs)
+    selftest["correct_history_accepted_by_reference"] = SYNTH in acc_p
+    selftest["corrupted_history_rejected_by_reference"] = SYNTH + 1 not in acc_p
+    selftest["corrupted_history_rejected_by_step_model"] = SYNTH + 1 not in acc_a and SYNTH + 1 not in acc_s
     if hs:
         ctx.sample({"concurrent_history": [[e["ev"], e["a"], e["op"], e["n"], e["v"], e["out"]] for e in hs[0][:-1]],
                     "final": hs[0][-1]["obs"]})
 
-    # ------------------------------------------------------------------ 5. binding self-test (synthetic inputs: independent of the code under test)
-    st = {}
-    bad = {"sc": 1, "ns": names2, "init": [0, 0], "steps": [
-        ["prepare", "n1", 1, "ok", True, 0, [0, 0], [0, 0], []],
-        ["commit", "n1", 0, "ok", True, 2, [2, 0], [2, 0], []]]}          # TLC says version 1 becomes active
-    res, summ = R.replay(ctx, "C31", [bad], table)
-    st["corrupted_expectation_detected"] = any(x.get("devs") for x in res)
-
-    def line(t, ev, n, v, out, obs):
-        return {"t": t, "ev": ev, "n": n, "v": v, "out": out, "obs": obs, "ns": names2, "init": [0, 0], "sc": 1, "dev": False}
-    seq = [line(0, "prepare", "n1", 1, "ok", [0, 0]), line(0, "commit", "n1", 0, "ok", [1, 0]),      # a correct execution
-           line(1, "prepare", "n1", 1, "ok", [0, 0]), line(1, "commit", "n1", 0, "ok", [0, 0])]      # the commit activates nothing
-    sub = vlib.Ctx(ctx.pid, ctx.tier, ctx.seed, replay="selftest")
-    try:
-        rej, _ = R.validate_sequential(sub, names2, nv, seq, label="self-test")
-        st["corrupted_sequential_trace_rejected"] = rej == {(1, 1)}
-
-        def hist(t, final):
-            def ev(kind, op, n, v, out):
-                return {"t": t, "ev": kind, "a": 1, "op": op, "n": n, "v": v, "out": out, "obs": [], "ns": names3, "init": [0, 0, 0], "nx": 0}
-            return [ev("start", "prepare", "n1", 1, ""), ev("end", "prepare", "n1", 1, "ok"), ev("start", "commit", "n1", 0, ""),
-                    ev("end", "commit", "n1", 0, "ok"),
-                    {"t": t, "ev": "final", "a": 0, "op": "", "n": "", "v": 0, "out": "", "obs": final, "ns": names3, "init": [0, 0, 0], "nx": 0}]
-        hs = [hist(0, [1, 0, 0]), hist(1, [0, 0, 0])]     # the second one lost the committed configuration
-        st["corrupted_history_rejected_by_reference"] = R.linearize(sub, names3, nv, copy.deepcopy(hs), "P", "self-test P") == {0}
-        st["corrupted_history_rejected_by_step_model"] = R.linearize(sub, names3, nv, copy.deepcopy(hs), "S", "self-test S") == {0}
-    finally:
-        sub.cleanup()
-    cov["binding_selftest"] = st
-    if not all(st.values()):
-        raise vlib.Inconclusive("binding self-test failed: %s" % st)
+    # ------------------------------------------------------------------ 5. binding self-test verdict
+    cov["binding_selftest"] = selftest
+    want = ["corrupted_expectation_detected", "corrupted_sequential_trace_rejected", "correct_history_accepted_by_reference",
+            "corrupted_history_rejected_by_reference", "corrupted_history_rejected_by_step_model"]
+    if not all(selftest.get(k) for k in want):
+        raise vlib.Inconclusive("binding self-test failed: %s" % selftest)
